@@ -19,6 +19,23 @@ KeyClasses == {"full", "lzx", "lzy", "lzxy"}
 ShortClasses == KeyClasses \ {"full"}
 Lz(c) == <<c \in {"lzx", "lzxy"}, c \in {"lzy", "lzxy"}>>
 
+\* What the caller SUPPLIES next to what it REQUESTS.  The builder's interfaces take the material of an encrypted container (part-common
+\* key, access rights of the key derivation key) and the material of an image signing certificate (ISK public key, constraints, user
+\* data, the root key's signature provider) as OPTIONAL arguments NEXT TO the request itself (encrypted / plain, ISK / no ISK).  Every
+\* argument is legal on its own, so every combination of request and supply is part of the domain, with one exception: what is requested
+\* must be supplied (an encrypted container needs key and rights, an ISK container needs the certificate material).  Material that is
+\* supplied but NOT requested changes nothing: a plain container is readable WITHOUT any key (the loader of a plain container has none),
+\* a container without ISK is signed by the root key and its certificate block ends with the root key record.
+\*   given = [pck |-> 0 (none) | 128 | 256, rights |-> -1 (none) | 0..3, isk |-> material of an ISK certificate supplied]
+NoRights == 0 - 1
+GivenPcks == {0, 128, 256}
+GivenRights == NoRights..3
+Requested(enc, pck, rights, isk) == [pck |-> IF enc THEN pck ELSE 0, rights |-> IF enc THEN rights ELSE NoRights, isk |-> isk]
+Givens(enc, pck, rights, isk) == {[pck |-> p, rights |-> r, isk |-> i] : p \in IF enc THEN {pck} ELSE GivenPcks,
+                                                                         r \in IF enc THEN {rights} ELSE GivenRights,
+                                                                         i \in IF isk THEN {TRUE} ELSE BOOLEAN}
+KeyMaterial(g) == g.pck # 0 /\ g.rights # NoRights          \* everything a block key is derived from is at hand (the timestamp always is)
+
 \* Command = tag, w1, w2, cmd [, 4 more words] [, data padded to 16] [, 64 reserved bytes]
 \* (which commands carry the extra words / the reserved tail is frozen-from-source, see harness assumptions)
 DataCmds == {2, 5, 6, 7, 9, 10}
